@@ -50,3 +50,49 @@ Theorem C03_model_meets_decoder_monitor : forall dec_ok key b,
   (forall ctx, decode dec_ok ctx b <> WUnmodelled) -> monitor_C03dec b (model_obs dec_ok key b) = true.
 Proof. exact WireMeets.model_meets_C03dec. Qed.
 Print Assumptions C03_model_meets_decoder_monitor.
+
+(* ---- the Rust text itself: raw.rs (MessageHeader::decode, RawMessage::decode, RawAttribute::decode, RawAttributesIter) is
+   translated by tools/rs2v.py from /repo's CURRENT source on every run (Generated/Code.v; slice indexing, usize additions and
+   conversions carry their panic as an explicit GPanic outcome).  For ALL byte strings the translated code never panics and
+   is, result for result, the front end of the model the theorems above are about (Proofs/CodeAgreeRaw.v): the header gate is
+   Wire.hdr_valid with the fields of the header read off the bytes, RawMessage::decode adds the size gate 20 + length <= len,
+   and the iterator run to its end / first error yields exactly Tlv.dec_tlvs.  (len < 2^63: Rust's bound on every slice.) *)
+From Rustun Require Import Base.GRes Generated.Code Proofs.CodeAgreeRaw.
+Theorem C03_code_header_is_model : forall b, Tlv.bytes_ok b = true ->
+  gen_MessageHeader_decode b = GOk (if Wire.hdr_valid b then Some (CodeAgreeRaw.hdr_of b, 20) else None).
+Proof. exact CodeAgreeRaw.gen_header_agrees. Qed.
+Theorem C03_code_header_fields : forall b, Wire.hdr_valid b = true ->
+  MessageHeader_bits (CodeAgreeRaw.hdr_of b) = 0 /\ MessageHeader_msg_length (CodeAgreeRaw.hdr_of b) = Wire.msg_length b
+  /\ MessageHeader_cookie (CodeAgreeRaw.hdr_of b) = InputText.cookie_bytes
+  /\ MessageHeader_transaction_id (CodeAgreeRaw.hdr_of b) = Tlv.take 12 (Tlv.drop 8 b)
+  /\ Tlv.len (MessageHeader_transaction_id (CodeAgreeRaw.hdr_of b)) = 12.
+Proof. exact CodeAgreeRaw.hdr_valid_fields. Qed.
+Theorem C03_code_raw_message_is_model : forall b, Tlv.bytes_ok b = true ->
+  gen_RawMessage_decode b
+  = GOk (if Wire.hdr_valid b && (20 + Wire.msg_length b <=? Tlv.len b)
+         then Some ({| RawMessage_header := CodeAgreeRaw.hdr_of b;
+                       RawMessage_attributes := Tlv.take (Wire.msg_length b) (Tlv.drop 20 b) |}, 20 + Wire.msg_length b)
+         else None).
+Proof. exact CodeAgreeRaw.gen_raw_message_agrees. Qed.
+Theorem C03_code_tlv_walk_is_model : forall attrs, Tlv.bytes_ok attrs = true -> Tlv.len attrs < 9223372036854775808 ->
+  CodeAgreeRaw.gen_iter_all (S (length attrs)) (gen_RawAttributes_into_fallible_iter (gen_RawAttributes_from attrs))
+  = GOk (match Tlv.dec_tlvs (length attrs) attrs with Tlv.Ok l => Some l | _ => None end)
+  /\ Tlv.dec_tlvs (length attrs) attrs <> Tlv.Panic.
+Proof. exact CodeAgreeRaw.gen_tlv_walk_agrees. Qed.
+Theorem C03_code_decode_front_is_model : forall dec_ok ctx b, Tlv.bytes_ok b = true ->
+  match gen_RawMessage_decode b with
+  | GOk None => Wire.decode dec_ok ctx b = Wire.WErr
+  | GOk (Some (m, size)) =>
+      size = 20 + Wire.msg_length b /\ size <= Tlv.len b /\ Wire.hdr_valid b = true
+      /\ RawMessage_attributes m = Tlv.take (Wire.msg_length b) (Tlv.drop 20 b)
+      /\ CodeAgreeRaw.gen_iter_all (S (length b)) (gen_RawAttributes_into_fallible_iter (gen_RawAttributes_from (RawMessage_attributes m)))
+         = GOk (match Tlv.dec_tlvs (length b) (Tlv.take (Wire.msg_length b) (Tlv.drop 20 b)) with Tlv.Ok l => Some l | _ => None end)
+      /\ Tlv.dec_tlvs (length b) (Tlv.take (Wire.msg_length b) (Tlv.drop 20 b)) <> Tlv.Panic
+  | GPanic | GFuel => False
+  end.
+Proof. exact CodeAgreeRaw.gen_decode_front_is_wire. Qed.
+Print Assumptions C03_code_header_is_model.
+Print Assumptions C03_code_header_fields.
+Print Assumptions C03_code_raw_message_is_model.
+Print Assumptions C03_code_tlv_walk_is_model.
+Print Assumptions C03_code_decode_front_is_model.
